@@ -45,7 +45,7 @@ Definition syminfo : Set := (list name * list name * list name * list name)%type
 Definition binder_case : Set := (nat * nat * node * list syminfo)%type.   (* index, #names, tree, infos *)
 
 (* no quirk: CPython's rule *)
-Definition noq : quirks := mkq false false false.
+Definition noq : quirks := mkq false false false false.
 
 Definition check_fn (nmax : nat) (ab : node * node) (si : syminfo) : bool :=
   match ab, si with
